@@ -11,7 +11,7 @@ R0 == Res(L("prim"), L("unit"))
 R1 == Res(L("prim"), L("enum"))
 NestedRes == {Res(R1, L("unit")), Res(L("prim"), R1), Opt("std", R0), Opt("dipl", R0), Box(R0), Ref(R0), Res(R0, L("unit")), Res(L("unit"), R0)}
 T2 == T1 \cup Wrap1(T1 \ T0) \cup {Res(a, b) : a \in ResArm, b \in ResArm} \cup NestedRes
-Ty == IF Depth = 1 THEN T1 \cup {Res(a, b) : a \in {L("unit"), L("prim"), Box(L("opaque")), Ref(L("opaque"))},
+Ty == IF Depth = 1 THEN T1 \cup {Res(a, b) : a \in {L("unit"), L("prim"), L("zst"), L("struct"), Box(L("opaque")), Ref(L("opaque"))},
                                            b \in {L("unit"), L("enum"), L("opaque"), Ref(L("opaque")), Opt("std", Ref(L("opaque"))), L("str_std")}} ELSE T2
 
 HasKind(t, K) == Mentions(t, K)
